@@ -14,3 +14,5 @@ for seed in $seeds; do
   echo "seeded=$sid check=$chk seed=$seed violations=$nv (without failing input: $nf)"
 done
 git -C /repo worktree remove --force $wt
+# the translator ties were regenerated from the scratch worktree: put back what /repo says
+python3 tools/gen_schema.py /repo >/dev/null 2>&1; python3 tools/gen_sql.py /repo >/dev/null 2>&1; python3 tools/gen_formulas.py /repo >/dev/null 2>&1
